@@ -13,7 +13,7 @@ RULE = (
     "a case is a C12 response (payload, coding stack, framing, chunk sizes, segmentation, decode flag, read-call "
     "sequence + draining tail (incl. drain_conn(), which presents nothing: only the connection clause applies), direct connection | pool | preloading pool) plus ONE mutation: cut = the stream ends "
     "(EOF) after k body bytes, for EVERY k from 0 to len(body)-1; chunksize = one hex digit of a chunk-size line "
-    "replaced by a non-hex byte, or the line removed; flip = one byte of the encoded content xor-ed with consistent "
+    "replaced by a non-hex byte, the line removed, or the size replaced by a well-formed but impossible one (20 hex digits); flip = one byte of the encoded content xor-ed with consistent "
     "framing; clconflict = two different Content-Length values. The oracle is three-valued and computed from "
     "independent facts (framing arithmetic; zlib / zstandard run directly on the mutated content): MUST-RAISE, "
     "EITHER (cuts inside the terminating chunk line, truncated gzip/deflate without framing evidence, corruption in "
@@ -206,6 +206,11 @@ def build(case):
             except ValueError:
                 return head + new, eof, "raise", None, f"size line of chunk removed; data {line[:12]!r} is read as a size line"
         hexlen = len(body[s:e].split(b";")[0].rstrip(b"\r\n"))
+        if mut["how"] == "huge":
+            # a well-formed size that no stream can satisfy (larger than the address space): the bytes received end
+            # inside that chunk
+            new = body[:s] + b"f" * 20 + body[s + hexlen :]
+            return head + new, True, "raise", None, "chunk announces 2**80-1 bytes, the stream ends inside it"
         if mut["how"] == "cr":
             # the CR that ends the size line becomes a letter: "5\r\n" -> "5X\n" (valid digits followed by junk)
             if b";" in body[s:e]:
@@ -409,6 +414,8 @@ def mutations(base, dense: bool, salt: int):
                 yield {"m": "chunksize", "idx": i, "how": "cr"}
             if lines[i][2] != 0:
                 yield {"m": "chunksize", "idx": i, "how": "remove"}
+            if lines[i][2] != 0 and i in (0, len(lines) - 2):
+                yield {"m": "chunksize", "idx": i, "how": "huge"}
     coded = [c for c in base.get("coding", []) if c != "identity"]
     if coded and content:
         fstep = 1 if dense or len(content) <= 120 else max(1, len(content) // 60)
